@@ -185,6 +185,13 @@ def build_labware(spec, shared=None):
 def build_worklist(ws):
     cls = WLCLS[ws["cls"]]
     kw = {k: v for k, v in ws.items() if k in ("max_volume", "auto_split", "diti_mode")}
+    if ws.get("file"):
+        # a worklist that is bound to a file (written when its `with` block is left)
+        import os
+        import tempfile
+
+        base = "/dev/shm" if os.path.isdir("/dev/shm") and os.access("/dev/shm", os.W_OK) else tempfile.gettempdir()
+        kw["filepath"] = os.path.join(base, f"rtmc-ctx-{os.getpid()}-{ws['file']}.gwl")
     return cls(**kw)
 
 
@@ -333,8 +340,9 @@ def clone_world(W, how):
             W[grp][k] = memo_pairs[id(o)]
 
 
-def exec_event(W, ev):
-    """Apply one event to the real objects.  Returns (outcome, exception or None)."""
+def exec_event(W, ev, reraise=False):
+    """Apply one event to the real objects.  Returns (outcome, exception or None); with reraise=True an exception
+    of the library propagates to the caller (who may be inside a `with` block of the worklist)."""
     op = ev[0]
     if W.get("clone_before_each_event"):
         clone_world(W, W["clone_before_each_event"])
@@ -375,6 +383,8 @@ def exec_event(W, ev):
         else:
             raise RuntimeError(f"unknown event {op}")
     except Exception as e:  # observations, not crashes
+        if reraise:
+            raise
         return f"raised:{type(e).__name__}", e
     return "ok", None
 
